@@ -1,6 +1,7 @@
 package main
 
 import (
+	"os"
 	"fmt"
 	"go/constant"
 	"go/token"
@@ -394,7 +395,22 @@ func (fr *Frame) prepareCFG() {
 	var dfs func(b *ssa.BasicBlock)
 	dfs = func(b *ssa.BasicBlock) {
 		seen[b] = true
-		for _, s := range b.Succs {
+		// successors that leave a loop b belongs to are visited first, so that in the reversed postorder a loop's
+		// body directly follows its header (the step obligations then carry no code from behind the loop)
+		succs := append([]*ssa.BasicBlock(nil), b.Succs...)
+		if os.Getenv("GOVC_OLD_ORDER") == "" {
+			depth := func(x *ssa.BasicBlock) int {
+				n := 0
+				for _, li := range fr.loops {
+					if li.body[x] {
+						n++
+					}
+				}
+				return n
+			}
+			sort.SliceStable(succs, func(i, j int) bool { return depth(succs[i]) < depth(succs[j]) })
+		}
+		for _, s := range succs {
 			if fr.backEdge[[2]int{b.Index, s.Index}] || seen[s] {
 				continue
 			}
